@@ -15,9 +15,9 @@ var c19Skip = map[string]bool{"random": true, "date": true, "time": true, "verif
 
 // parameter sources per filter (template source; value from the context or literal)
 var c19Params = map[string][]string{
-	"add": {"1", `"x"`, "n"}, "center": {"7", "n"}, "ljust": {"6"}, "rjust": {"6", "n"}, "cut": {`"a"`, "s"}, "default": {`"d"`, "n"},
+	"add": {"1", `"x"`, "n"}, "center": {"7", "n"}, "ljust": {"6"}, "rjust": {"6", "n"}, "cut": {`"a"`, "s", `"\\n"`, `"\\\\t"`}, "default": {`"d"`, "n"},
 	"default_if_none": {`"d"`}, "divisibleby": {"2", "n"}, "floatformat": {"2", "n"}, "get_digit": {"1"}, "join": {`","`, "s"},
-	"length_is": {"3", "n"}, "pluralize": {`"es"`}, "slice": {`"1:3"`, `":2"`}, "split": {`","`}, "truncatechars": {"5", "n"}, "truncatewords": {"2"},
+	"length_is": {"3", "n"}, "pluralize": {`"es"`}, "slice": {`"1:3"`, `":2"`}, "split": {`","`, `"\\r"`}, "truncatechars": {"5", "n"}, "truncatewords": {"2"},
 	"wordwrap": {"2"}, "yesno": {`"y,n"`},
 }
 
@@ -51,9 +51,9 @@ func suiteC19(cfg Config, res *Result) {
 		}
 	}
 	ctxVals := map[string]VT{"s": vStr("a,b c"), "n": vInt(3), "t": vStr("Hello big World"), "i": vInt(1234), "f": vFloat(3.14159),
-		"l": vList("string", vStr("x"), vStr("y"), vStr("z")), "li": vList("int", vInt(4), vInt(5)), "nl": vNil(), "h": vStr("<b>&")}
+		"l": vList("string", vStr("x"), vStr("y"), vStr("z")), "li": vList("int", vInt(4), vInt(5)), "nl": vNil(), "h": vStr("<b>&"), "bs": vStr("dir\\new\\tmp\\\\t")}
 	var ct CtxTerm
-	for _, k := range []string{"s", "n", "t", "i", "f", "l", "li", "nl", "h"} {
+	for _, k := range []string{"s", "n", "t", "i", "f", "l", "li", "nl", "h", "bs"} {
 		ct.Names = append(ct.Names, k)
 		ct.Vals = append(ct.Vals, ctxVals[k])
 	}
@@ -62,7 +62,16 @@ func suiteC19(cfg Config, res *Result) {
 		case p == "":
 			return pongo2.AsValue(nil)
 		case p[0] == '"':
-			return pongo2.AsValue(strings.Trim(p, `"`))
+			// a string literal as the lexer reads it: one left-to-right pass, \\ is a backslash, \" a quote
+			body := p[1 : len(p)-1]
+			var sb strings.Builder
+			for k := 0; k < len(body); k++ {
+				if body[k] == '\\' && k+1 < len(body) && (body[k+1] == '\\' || body[k+1] == '"') {
+					k++
+				}
+				sb.WriteByte(body[k])
+			}
+			return pongo2.AsValue(sb.String())
 		case p[0] >= '0' && p[0] <= '9':
 			var x int
 			fmt.Sscan(p, &x)
@@ -93,7 +102,7 @@ func suiteC19(cfg Config, res *Result) {
 			}
 			steps = append(steps, chainStep{f, p})
 		}
-		base := rng.Pick([]string{"s", "t", "i", "f", "l", "li", "nl", "h", `"lit x"`, "42"})
+		base := rng.Pick([]string{"s", "t", "i", "f", "l", "li", "nl", "h", "bs", `"lit x"`, `"a\\nb\\\\tc"`, "42"})
 		// a leading minus belongs to the whole filtered term: -5|add:2 is -(5|add:2)
 		neg := rng.Chance(1, 8)
 		if neg {
@@ -153,6 +162,13 @@ func suiteC19(cfg Config, res *Result) {
 				wants[pc.Req()] = "err exec"
 			}
 			continue
+		}
+		if i%15 == 0 {
+			// a filter tag whose body fails after having written something: nothing of it may turn up later
+			c := ct
+			bad := ProgCase{Src: fmt.Sprintf("{%% filter upper %%}left over %d {{ 1 / (n - 3) }}{%% endfilter %%}", i), Ctx: &c, Label: "filtertag/poison/len=2"}
+			cases = append(cases, bad)
+			wants[bad.Req()] = "err exec"
 		}
 		full := strings.ReplaceAll(pos, "V", src)
 		c := ct
